@@ -94,6 +94,15 @@ fn witness(id: &str) -> Option<bool> {
             println!("cell_to_children({:x}, Some(1)) = {:x?}", x, r);
             match r { Ok(v) => v.iter().any(|&y| !canonical(y)), Err(_) => false }
         }
+        "c14-uncompact-echo-malformed" => {
+            let bad = 0xF100_0000_0000_0000u64; // top-6 code 60: not a cell
+            let r = a5::uncompact(&[bad], 1);
+            println!("uncompact([{:x}], 1) = {:x?}", bad, r);
+            let alias = q(2, 1) | 1;
+            let r2 = a5::uncompact(&[alias], 1);
+            println!("uncompact([{:x}], 1) = {:x?}", alias, r2);
+            matches!(r, Ok(_)) || matches!(r2, Ok(ref v) if v.iter().any(|&y| !canonical(y)))
+        }
         _ => return None,
     })
 }
